@@ -157,7 +157,14 @@ def written_pt_is_rigid_placement(self, path_output_pt, path_output_structure):
         if ref is None or not str(path_output_pt).endswith("xyz"):
             REC.skip("C10.frames", "written trajectory not readable by the monitor")
             return True
-        u = mda.Universe(path_output_pt)
+        try:
+            u = mda.Universe(path_output_pt)
+        except Exception as e:
+            if any("DUMMY" in t or t in ("MW", "") for t in ref["types"]):
+                # the xyz format has no representation for a massless site's element: MDAnalysis cannot read such a file back
+                REC.skip("C10.frames", "written xyz with a massless site cannot be read back by MDAnalysis")
+                return True
+            raise e
         ref2 = dict(ref)
         ref2["names"] = [str(n) for n in u.atoms.names]   # file formats rename atoms: order/positions are judged, names are judged in memory
         ref2["types"] = [str(t) for t in u.atoms.types]
@@ -187,6 +194,14 @@ def reader_returns_what_the_file_holds(self, path_molecule, center_com, result):
             dw = np.linalg.norm(X[:, None] - X[None], axis=2)
             ok = np.abs(d - dw).max() <= 4 * prec + 1e-5
         REC.check(mon, ok, lambda: {"path": os.path.basename(str(path_molecule)), "read": pos[:6], "written_last": X[:6]})
+        if center_com:
+            # "read through the package's reader (centred at their centre of mass)": the mass-weighted centre - massless sites do not count -
+            # is at the origin, which is what makes 'translate by the row position' put the centre of mass AT the row position
+            m = np.array(self.get_molecule().atoms.masses, dtype=float)
+            if m.sum() > 0:
+                com = (pos * m[:, None]).sum(axis=0) / m.sum()
+                REC.check("C10.reader_centres_at_com", np.abs(com).max() < 1e-4 + 4e-7 * np.abs(X).max(),
+                          lambda: {"path": os.path.basename(str(path_molecule)), "centre_of_mass_after_reading": com, "masses": m})
     except Exception as e:
         REC.crashed("C10.oracle_error", e)
     return True
@@ -225,6 +240,8 @@ def make_geometry(rng, nprng, kind, n):
         X = nprng.uniform(-2, 2, size=(n, 3))
     X = X + nprng.uniform(-5, 5, size=3) * (rng.random() < 0.6)  # off-centre files
     els = [rng.choice(ELEMENTS) for _ in range(len(X))]
+    if len(X) >= 3 and rng.random() < 0.2:
+        els[rng.randrange(1, len(X))] = "MW"      # a massless site (TIP4P's virtual site, a dummy atom): part of the geometry, not of the COM
     return np.round(X, 3), els
 
 
